@@ -728,6 +728,9 @@ func c01Cli(c *core.Ctx, dir string, k c01Case) {
 }
 
 func c01Replay(c *core.Ctx, payload json.RawMessage) {
+	if c01AttrReplay(c, payload) {
+		return
+	}
 	var k c01Case
 	if err := json.Unmarshal(payload, &k); err != nil {
 		fmt.Println("bad payload:", err)
